@@ -13,7 +13,7 @@ one() {
   echo "| $sid | $chk | ${n:-?} | $fps |" > $TMP/$sid.row
 }
 export -f one; export TMP
-ls -d /verif/seeded/C*-m* | xargs -P 4 -I{} bash -c 'one {}'
+ls -d /verif/seeded/C*-m* | xargs -P ${MATRIX_P:-4} -I{} bash -c 'one {}'
 { echo "# Seeded changes vs. checks (quick tier), $(date -u +%F)"; echo; echo "Each row: the seeded change applied in a scratch worktree, the check run against it (tools/tryseed.sh)."; echo; echo "| seed | check | violations reported | first fingerprints |"; echo "|---|---|---|---|"; cat $TMP/*.row | sort; } > $OUT
 rm -rf $TMP
 grep -c '| 0 |' $OUT | sed 's/^/undetected: /'
